@@ -1,24 +1,20 @@
 // ---- prelude/schema.rs : what a materialised Runtype denotes (C07)
+// `ListAtomic`, `MappingAtomicType`, `IndexedPropertiesAtomic` are the real definitions (extracted from bdd.rs).
 // Runtype (ast/runtype.rs) cannot be imported (BTreeSet<Runtype> inside, hand-written Ord, serde):
 // it is an opaque sort with an uninterpreted denotation over real values, and its constructors are
 // contract-only (R5): their denotations below are ASSUMED (listed in the trusted base).
 } // verus!  (opaque stand-in types, plain Rust)
 #[derive(PartialEq, Eq, PartialOrd, Ord, Clone, Debug)]
 pub struct Runtype { _opaque: u8 }
-#[derive(Debug)]
-pub struct MappingAtomicType { _opaque: u8 }
-#[derive(Debug)]
-pub struct ListAtomic { _opaque: u8 }
+#[derive(Debug, Clone)]
+pub struct RuntypeUUID { _opaque: u8 }
 verus! {
 #[verifier::external_type_specification]
 #[verifier::external_body]
 pub struct ExRuntype(Runtype);
 #[verifier::external_type_specification]
 #[verifier::external_body]
-pub struct ExMappingAtomicType(MappingAtomicType);
-#[verifier::external_type_specification]
-#[verifier::external_body]
-pub struct ExListAtomic(ListAtomic);
+pub struct ExRuntypeUUID(RuntypeUUID);
 #[verifier::external_type_specification]
 pub struct ExRuntypeConst(RuntypeConst);
 
@@ -41,8 +37,11 @@ pub uninterp spec fn list_def(ctx: SemTypeContext, i: usize) -> ListAtomic;
 pub uninterp spec fn map_def(ctx: SemTypeContext, i: usize) -> MappingAtomicType;
 pub uninterp spec fn set_def(ctx: SemTypeContext, i: usize) -> ListAtomic;
 // denotation of an atomic object / Map / list / Set type
-pub uninterp spec fn mt_den(mt: MappingAtomicType, is_map: bool, x: RV) -> bool;
-pub uninterp spec fn lt_den(lt: ListAtomic, is_set: bool, x: RV) -> bool;
+// (uninterpreted because the meaning of an atom refers to the meaning of the types of its components at the
+//  value's components - a recursion on the *value* that goes through `vabs`/`env_of`; the unfolding equations
+//  are the definitional axioms `axiom_lt_den` / `axiom_map_den` below. Object atoms stay uninterpreted.)
+pub uninterp spec fn mt_den(ctx: SemTypeContext, mt: MappingAtomicType, is_map: bool, x: RV) -> bool;
+pub uninterp spec fn lt_den(ctx: SemTypeContext, lt: ListAtomic, is_set: bool, x: RV) -> bool;
 
 pub open spec fn atom_defined(ctx: SemTypeContext, a: Atom) -> bool {
     match a {
@@ -54,10 +53,10 @@ pub open spec fn atom_defined(ctx: SemTypeContext, a: Atom) -> bool {
 }
 pub open spec fn atom_holds(ctx: SemTypeContext, a: Atom, x: RV) -> bool {
     match a {
-        Atom::Mapping(i) => mt_den(mapping_def(ctx, i), false, x),
-        Atom::List(i) => lt_den(list_def(ctx, i), false, x),
-        Atom::Map(i) => mt_den(map_def(ctx, i), true, x),
-        Atom::Set(i) => lt_den(set_def(ctx, i), true, x),
+        Atom::Mapping(i) => mt_den(ctx, mapping_def(ctx, i), false, x),
+        Atom::List(i) => lt_den(ctx, list_def(ctx, i), false, x),
+        Atom::Map(i) => mt_den(ctx, map_def(ctx, i), true, x),
+        Atom::Set(i) => lt_den(ctx, set_def(ctx, i), true, x),
     }
 }
 pub open spec fn env_of(ctx: SemTypeContext, x: RV) -> Env { |a: Atom| atom_holds(ctx, a, x) }
@@ -128,24 +127,19 @@ impl Runtype {
     { unimplemented!() }
 }
 
-// R5 (contract-only, ASSUMED): the per-atom schemas. They recurse through convert_to_schema and its
-// Ref memo, which is NOT modelled: their result is assumed to denote the atomic type.
+// R5 (contract-only, ASSUMED): the schema of an *object* atom, and the memoising entry point
+// `convert_to_schema` through which the atom schemas recurse into component types. Its Ref memo (the cut for
+// recursive types) is NOT modelled: the recursive call is assumed to denote the component type - the
+// statement proved for `convert_to_schema_no_cache`, used as induction hypothesis one level down.
 impl<'a, 'b> SchemerContext<'a, 'b> {
     #[verifier::external_body]
     fn mapping_atom_schema(&mut self, mt: &Rc<MappingAtomicType>) -> (r: Result<Runtype>)
-        ensures final(self).ctx == old(self).ctx, r is Ok ==> forall|x: RV| #[trigger] den(r->Ok_0, x) == mt_den(**mt, false, x)
+        ensures final(self).ctx == old(self).ctx, r is Ok ==> forall|x: RV| #[trigger] den(r->Ok_0, x) == mt_den(*old(self).ctx.0, **mt, false, x)
     { unimplemented!() }
     #[verifier::external_body]
-    fn map_atom_schema(&mut self, mt: &Rc<MappingAtomicType>) -> (r: Result<Runtype>)
-        ensures final(self).ctx == old(self).ctx, r is Ok ==> forall|x: RV| #[trigger] den(r->Ok_0, x) == mt_den(**mt, true, x)
-    { unimplemented!() }
-    #[verifier::external_body]
-    fn list_atom_schema(&mut self, mt: &Rc<ListAtomic>) -> (r: Result<Runtype>)
-        ensures final(self).ctx == old(self).ctx, r is Ok ==> forall|x: RV| #[trigger] den(r->Ok_0, x) == lt_den(**mt, false, x)
-    { unimplemented!() }
-    #[verifier::external_body]
-    fn set_atom_schema(&mut self, mt: &Rc<ListAtomic>) -> (r: Result<Runtype>)
-        ensures final(self).ctx == old(self).ctx, r is Ok ==> forall|x: RV| #[trigger] den(r->Ok_0, x) == lt_den(**mt, true, x)
+    pub fn convert_to_schema(&mut self, ty: &Rc<SemType>, name: Option<&RuntypeUUID>) -> (r: Result<Runtype>)
+        ensures final(self).ctx == old(self).ctx,
+            r is Ok && schema_pre(*old(self).ctx.0, **ty) ==> denotes(*old(self).ctx.0, r->Ok_0, **ty)
     { unimplemented!() }
 }
 
@@ -282,6 +276,170 @@ pub uninterp spec fn rv_num(x: RV) -> NumberRepresentationOrFormat;
 pub uninterp spec fn rv_str(x: RV) -> StringLitOrFormat;
 pub uninterp spec fn rv_ta(x: RV) -> TypedArrayKind;
 pub uninterp spec fn rv_vu(x: RV) -> VoidUndefinedSubtype;
+// components of a structured value: elements of a list / Set, entries (key, value) of a Map
+pub uninterp spec fn rv_len(x: RV) -> nat;
+pub uninterp spec fn rv_at(x: RV, i: int) -> RV;
+pub uninterp spec fn rv_key(x: RV, i: int) -> RV;
+// the values C07's equation is stated for: of a visible tag, and so are all their components, hereditarily
+pub uninterp spec fn rv_ok(x: RV) -> bool;
+#[verifier::external_body]
+pub broadcast proof fn axiom_rv_ok(x: RV)
+    requires #[trigger] rv_ok(x)
+    ensures visible(rv_tag(x)),
+        forall|i: int| 0 <= i < rv_len(x) ==> rv_ok(#[trigger] rv_at(x, i)),
+        forall|i: int| 0 <= i < rv_len(x) ==> rv_ok(#[trigger] rv_key(x, i)),
+{}
+
+// ---- what list / Set / Map atoms denote (definitional axioms of the model; object atoms stay uninterpreted)
+pub open spec fn item_at(lt: ListAtomic, i: int) -> SemType {
+    if i < lt.prefix_items@.len() { *lt.prefix_items@[i] } else { *lt.items }
+}
+pub open spec fn list_item_ok(ctx: SemTypeContext, lt: ListAtomic, x: RV, i: int) -> bool { mem(item_at(lt, i), vabs(ctx, rv_at(x, i))) }
+pub open spec fn list_shape_den(ctx: SemTypeContext, lt: ListAtomic, x: RV) -> bool {
+    &&& rv_tag(x) == SubTypeTag::List
+    &&& rv_len(x) >= lt.prefix_items@.len()
+    &&& forall|i: int| 0 <= i < rv_len(x) ==> #[trigger] list_item_ok(ctx, lt, x, i)
+}
+pub open spec fn set_shape_den(ctx: SemTypeContext, lt: ListAtomic, x: RV) -> bool {
+    &&& rv_tag(x) == SubTypeTag::Set
+    &&& forall|i: int| 0 <= i < rv_len(x) ==> mem(*lt.items, vabs(ctx, #[trigger] rv_at(x, i)))
+}
+pub open spec fn map_shape_den(ctx: SemTypeContext, mt: MappingAtomicType, x: RV) -> bool {
+    &&& rv_tag(x) == SubTypeTag::Map
+    &&& match mt.indexed_properties {
+        Some(ip) => forall|i: int| 0 <= i < rv_len(x) ==> #[trigger] map_entry_ok(ctx, ip, x, i),
+        None => true,
+    }
+}
+pub open spec fn map_entry_ok(ctx: SemTypeContext, ip: IndexedPropertiesAtomic, x: RV, i: int) -> bool {
+    mem(*ip.key, vabs(ctx, rv_key(x, i))) && mem(*ip.value, vabs(ctx, rv_at(x, i)))
+}
+pub open spec fn map_at(key: Runtype, value: Runtype, x: RV, i: int) -> bool { den(key, rv_key(x, i)) && den(value, rv_at(x, i)) }
+#[verifier::external_body]
+pub broadcast proof fn axiom_lt_den(ctx: SemTypeContext, lt: ListAtomic, is_set: bool, x: RV)
+    ensures #[trigger] lt_den(ctx, lt, is_set, x) == (if is_set { set_shape_den(ctx, lt, x) } else { list_shape_den(ctx, lt, x) })
+{}
+#[verifier::external_body]
+pub broadcast proof fn axiom_map_den(ctx: SemTypeContext, mt: MappingAtomicType, x: RV)
+    ensures #[trigger] mt_den(ctx, mt, true, x) == map_shape_den(ctx, mt, x)
+{}
+pub open spec fn tuple_at(prefix_items: Seq<Runtype>, items: Option<Box<Runtype>>, x: RV, i: int) -> bool {
+    if i < prefix_items.len() { den(prefix_items[i], rv_at(x, i)) } else { items is Some && den(*items->0, rv_at(x, i)) }
+}
+pub open spec fn tuple_den(prefix_items: Seq<Runtype>, items: Option<Box<Runtype>>, x: RV) -> bool {
+    &&& rv_tag(x) == SubTypeTag::List
+    &&& rv_len(x) >= prefix_items.len()
+    &&& forall|i: int| 0 <= i < rv_len(x) ==> #[trigger] tuple_at(prefix_items, items, x, i)
+}
+// (ASSUMED) denotations of the four container constructors, as predicates so that lemmas can be keyed on them
+pub open spec fn is_array_of(r: Runtype, item: Runtype) -> bool {
+    forall|x: RV| #[trigger] den(r, x) == (rv_tag(x) == SubTypeTag::List && forall|i: int| 0 <= i < rv_len(x) ==> den(item, #[trigger] rv_at(x, i)))
+}
+pub open spec fn is_set_of(r: Runtype, item: Runtype) -> bool {
+    forall|x: RV| #[trigger] den(r, x) == (rv_tag(x) == SubTypeTag::Set && forall|i: int| 0 <= i < rv_len(x) ==> den(item, #[trigger] rv_at(x, i)))
+}
+pub open spec fn is_map_of(r: Runtype, key: Runtype, value: Runtype) -> bool {
+    forall|x: RV| #[trigger] den(r, x) == (rv_tag(x) == SubTypeTag::Map && forall|i: int| 0 <= i < rv_len(x) ==> #[trigger] map_at(key, value, x, i))
+}
+pub open spec fn is_tuple_of(r: Runtype, prefix_items: Seq<Runtype>, items: Option<Box<Runtype>>) -> bool {
+    forall|x: RV| #[trigger] den(r, x) == tuple_den(prefix_items, items, x)
+}
+// "schema r denotes semantic type t" (on the values C07 speaks about)
+pub open spec fn denotes(ctx: SemTypeContext, r: Runtype, t: SemType) -> bool {
+    forall|y: RV| rv_ok(y) ==> #[trigger] den(r, y) == mem(t, vabs(ctx, y))
+}
+pub broadcast proof fn lemma_any_type(t: SemType, v: Val)
+    requires t.all == VAL
+    ensures #[trigger] mem(t, v)
+{
+    lemma_val();
+    let c = code_of(tag_of(v));
+    assert((0x3ffeu32 & c) != 0) by (bit_vector)
+        requires c == 2 || c == 4 || c == 8 || c == 16 || c == 32 || c == 64 || c == 128 || c == 256 || c == 512 || c == 1024 || c == 2048 || c == 4096 || c == 8192;
+}
+pub broadcast proof fn lemma_never_type(t: SemType, v: Val)
+    requires t.all == 0, t.subtype_data@.len() == 0
+    ensures !#[trigger] mem(t, v)
+{
+    lemma_bit_zero(code_of(tag_of(v)));
+}
+// a list atom without prefix, materialised as array(schema of the rest type)
+pub broadcast proof fn lemma_list_atom_array(ctx: SemTypeContext, lt: ListAtomic, inner: Runtype, r: Runtype)
+    requires #[trigger] is_array_of(r, inner), #[trigger] denotes(ctx, inner, *lt.items), lt.prefix_items@.len() == 0
+    ensures forall|x: RV| rv_ok(x) ==> #[trigger] den(r, x) == list_shape_den(ctx, lt, x)
+{
+    assert forall|x: RV| rv_ok(x) implies #[trigger] den(r, x) == list_shape_den(ctx, lt, x) by {
+        axiom_rv_ok(x);
+        assert forall|i: int| 0 <= i < rv_len(x) implies den(inner, #[trigger] rv_at(x, i)) == list_item_ok(ctx, lt, x, i) by {
+            assert(rv_ok(rv_at(x, i)));
+        }
+        if den(r, x) { assert forall|i: int| 0 <= i < rv_len(x) implies #[trigger] list_item_ok(ctx, lt, x, i) by { assert(den(inner, rv_at(x, i))); } }
+        if list_shape_den(ctx, lt, x) { assert forall|i: int| 0 <= i < rv_len(x) implies den(inner, #[trigger] rv_at(x, i)) by { assert(list_item_ok(ctx, lt, x, i)); } }
+    }
+}
+// a list atom with a prefix, materialised as tuple(schemas of the prefix, schema of the rest type unless it is never)
+pub open spec fn prefix_denotes(ctx: SemTypeContext, p: Seq<Runtype>, lt: ListAtomic) -> bool {
+    p.len() <= lt.prefix_items@.len() && forall|j: int| 0 <= j < p.len() ==> denotes(ctx, #[trigger] p[j], *lt.prefix_items@[j])
+}
+pub broadcast proof fn lemma_list_atom_tuple(ctx: SemTypeContext, lt: ListAtomic, p: Seq<Runtype>, items: Option<Box<Runtype>>, r: Runtype)
+    requires #[trigger] is_tuple_of(r, p, items), #[trigger] prefix_denotes(ctx, p, lt), p.len() == lt.prefix_items@.len(),
+        items is Some ==> denotes(ctx, *items->0, *lt.items),
+        items is None ==> forall|v: Val| !mem(*lt.items, v),
+    ensures forall|x: RV| rv_ok(x) ==> #[trigger] den(r, x) == list_shape_den(ctx, lt, x)
+{
+    assert forall|x: RV| rv_ok(x) implies #[trigger] den(r, x) == list_shape_den(ctx, lt, x) by {
+        axiom_rv_ok(x);
+        assert(den(r, x) == tuple_den(p, items, x));
+        if rv_tag(x) == SubTypeTag::List && rv_len(x) >= p.len() {
+            assert forall|i: int| 0 <= i < rv_len(x) implies #[trigger] tuple_at(p, items, x, i) == list_item_ok(ctx, lt, x, i) by {
+                assert(rv_ok(rv_at(x, i)));
+                if i < p.len() { assert(denotes(ctx, p[i], *lt.prefix_items@[i])); }
+            }
+            if tuple_den(p, items, x) { assert forall|i: int| 0 <= i < rv_len(x) implies #[trigger] list_item_ok(ctx, lt, x, i) by { assert(tuple_at(p, items, x, i)); } }
+            if list_shape_den(ctx, lt, x) { assert forall|i: int| 0 <= i < rv_len(x) implies #[trigger] tuple_at(p, items, x, i) by { assert(list_item_ok(ctx, lt, x, i)); } }
+        }
+    }
+}
+pub broadcast proof fn lemma_set_atom(ctx: SemTypeContext, lt: ListAtomic, inner: Runtype, r: Runtype)
+    requires #[trigger] is_set_of(r, inner), #[trigger] denotes(ctx, inner, *lt.items)
+    ensures forall|x: RV| rv_ok(x) ==> #[trigger] den(r, x) == set_shape_den(ctx, lt, x)
+{
+    assert forall|x: RV| rv_ok(x) implies #[trigger] den(r, x) == set_shape_den(ctx, lt, x) by {
+        axiom_rv_ok(x);
+        assert forall|i: int| 0 <= i < rv_len(x) implies den(inner, #[trigger] rv_at(x, i)) == mem(*lt.items, vabs(ctx, rv_at(x, i))) by {
+            assert(rv_ok(rv_at(x, i)));
+        }
+    }
+}
+pub broadcast proof fn lemma_map_atom(ctx: SemTypeContext, ip: IndexedPropertiesAtomic, k: Runtype, v: Runtype, r: Runtype)
+    requires #[trigger] is_map_of(r, k, v), #[trigger] denotes(ctx, k, *ip.key), #[trigger] denotes(ctx, v, *ip.value)
+    ensures forall|x: RV| rv_ok(x) ==> #[trigger] den(r, x) == (rv_tag(x) == SubTypeTag::Map && forall|i: int| 0 <= i < rv_len(x) ==> #[trigger] map_entry_ok(ctx, ip, x, i))
+{
+    assert forall|x: RV| rv_ok(x) implies #[trigger] den(r, x) == (rv_tag(x) == SubTypeTag::Map && forall|i: int| 0 <= i < rv_len(x) ==> #[trigger] map_entry_ok(ctx, ip, x, i)) by {
+        axiom_rv_ok(x);
+        assert forall|i: int| 0 <= i < rv_len(x) implies #[trigger] map_at(k, v, x, i) == map_entry_ok(ctx, ip, x, i) by {
+            assert(rv_ok(rv_at(x, i)) && rv_ok(rv_key(x, i)));
+        }
+        if den(r, x) { assert forall|i: int| 0 <= i < rv_len(x) implies #[trigger] map_entry_ok(ctx, ip, x, i) by { assert(map_at(k, v, x, i)); } }
+        if rv_tag(x) == SubTypeTag::Map && (forall|i: int| 0 <= i < rv_len(x) ==> #[trigger] map_entry_ok(ctx, ip, x, i)) {
+            assert forall|i: int| 0 <= i < rv_len(x) implies #[trigger] map_at(k, v, x, i) by { assert(map_entry_ok(ctx, ip, x, i)); }
+        }
+    }
+}
+// the component types stored in the context's tables are themselves in the fragment C07 is stated for
+pub open spec fn ty_ok(ctx: SemTypeContext, t: SemType) -> bool { wf(t) && flat(t) && kinds_ok(ctx, t) }
+pub open spec fn lt_ok(ctx: SemTypeContext, lt: ListAtomic) -> bool {
+    &&& ty_ok(ctx, *lt.items)
+    &&& forall|i: int| 0 <= i < lt.prefix_items@.len() ==> ty_ok(ctx, *#[trigger] lt.prefix_items@[i])
+}
+pub open spec fn mt_map_ok(ctx: SemTypeContext, mt: MappingAtomicType) -> bool {
+    match mt.indexed_properties { Some(ip) => ty_ok(ctx, *ip.key) && ty_ok(ctx, *ip.value), None => true }
+}
+pub open spec fn tables_ok(ctx: SemTypeContext) -> bool {
+    &&& forall|i: usize| list_defined(ctx, i) ==> lt_ok(ctx, #[trigger] list_def(ctx, i))
+    &&& forall|i: usize| set_defined(ctx, i) ==> lt_ok(ctx, #[trigger] set_def(ctx, i))
+    &&& forall|i: usize| map_defined(ctx, i) ==> mt_map_ok(ctx, #[trigger] map_def(ctx, i))
+}
 pub open spec fn vabs(ctx: SemTypeContext, x: RV) -> Val {
     match rv_tag(x) {
         SubTypeTag::Boolean => Val::Bool(rv_bool(x)),
@@ -305,8 +463,8 @@ pub open spec fn visible(t: SubTypeTag) -> bool { t != SubTypeTag::OptionalProp 
 // an atomic object/Map/list/Set type only contains values of its own kind (hypothesis on the
 // uninterpreted atom denotations, stated explicitly where it is used)
 pub open spec fn atoms_kind_pure() -> bool {
-    &&& forall|mt: MappingAtomicType, m: bool, x: RV| #[trigger] mt_den(mt, m, x) ==> rv_tag(x) == (if m { SubTypeTag::Map } else { SubTypeTag::Mapping })
-    &&& forall|lt: ListAtomic, s: bool, x: RV| #[trigger] lt_den(lt, s, x) ==> rv_tag(x) == (if s { SubTypeTag::Set } else { SubTypeTag::List })
+    &&& forall|ctx: SemTypeContext, mt: MappingAtomicType, m: bool, x: RV| #[trigger] mt_den(ctx, mt, m, x) ==> rv_tag(x) == (if m { SubTypeTag::Map } else { SubTypeTag::Mapping })
+    &&& forall|ctx: SemTypeContext, lt: ListAtomic, s: bool, x: RV| #[trigger] lt_den(ctx, lt, s, x) ==> rv_tag(x) == (if s { SubTypeTag::Set } else { SubTypeTag::List })
 }
 pub open spec fn str_is_const(s: StringLitOrFormat, c: Seq<char>) -> bool {
     match s {
@@ -338,11 +496,13 @@ impl Runtype {
     #[verifier::external_body] pub fn typed_array(kind: TypedArrayKind) -> (r: Runtype)
         ensures forall|x: RV| #[trigger] den(r, x) == (rv_tag(x) == SubTypeTag::TypedArray && rv_ta(x) == kind) { unimplemented!() }
     #[verifier::external_body] pub fn map(key: Box<Runtype>, value: Box<Runtype>) -> (r: Runtype)
-        ensures forall|x: RV| #[trigger] den(r, x) ==> rv_tag(x) == SubTypeTag::Map,
-                (forall|x: RV| den(*key, x)) && (forall|x: RV| den(*value, x)) ==> forall|x: RV| #[trigger] den(r, x) == (rv_tag(x) == SubTypeTag::Map) { unimplemented!() }
+        ensures is_map_of(r, *key, *value) { unimplemented!() }
     #[verifier::external_body] pub fn set(value: Box<Runtype>) -> (r: Runtype)
-        ensures forall|x: RV| #[trigger] den(r, x) ==> rv_tag(x) == SubTypeTag::Set,
-                (forall|x: RV| den(*value, x)) ==> forall|x: RV| #[trigger] den(r, x) == (rv_tag(x) == SubTypeTag::Set) { unimplemented!() }
+        ensures is_set_of(r, *value) { unimplemented!() }
+    #[verifier::external_body] pub fn array(item: Box<Runtype>) -> (r: Runtype)
+        ensures is_array_of(r, *item) { unimplemented!() }
+    #[verifier::external_body] pub fn tuple(prefix_items: Vec<Runtype>, items: Option<Box<Runtype>>) -> (r: Runtype)
+        ensures is_tuple_of(r, prefix_items@, items) { unimplemented!() }
     #[verifier::external_body] pub fn const_(value: RuntypeConst) -> (r: Runtype)
         ensures forall|x: RV| #[trigger] den(r, x) == (match value {
             RuntypeConst::Bool(b) => rv_tag(x) == SubTypeTag::Boolean && rv_bool(x) == b,
@@ -488,32 +648,32 @@ pub open spec fn kind_tag(kind: int) -> SubTypeTag {
 }
 // ---------------------------------------------------------------- invariants of convert_to_schema_no_cache
 pub open spec fn stage_a(all: u32, acc: Set<Runtype>, k: int) -> bool {
-    forall|x: RV| visible(rv_tag(x)) ==> #[trigger] set_den(acc, x) == full_upto(all, k, x)
+    forall|x: RV| rv_ok(x) ==> #[trigger] set_den(acc, x) == full_upto(all, k, x)
 }
 pub open spec fn stage_a_ta(all: u32, acc: Set<Runtype>, k: int, kinds: Seq<TypedArrayKind>, idx: int) -> bool {
-    forall|x: RV| visible(rv_tag(x)) ==> #[trigger] set_den(acc, x)
+    forall|x: RV| rv_ok(x) ==> #[trigger] set_den(acc, x)
         == (full_upto(all, k, x) || (rv_tag(x) == SubTypeTag::TypedArray && elem_upto(kinds, idx, rv_ta(x))))
 }
 pub open spec fn base_b(ctx: SemTypeContext, t: SemType, i: int, x: RV) -> bool {
     bit(t.all, code_of(rv_tag(x))) || in_seq_upto(t.subtype_data@, i, vabs(ctx, x))
 }
 pub open spec fn stage_b(ctx: SemTypeContext, t: SemType, acc: Set<Runtype>, i: int) -> bool {
-    forall|x: RV| visible(rv_tag(x)) ==> #[trigger] set_den(acc, x) == base_b(ctx, t, i, x)
+    forall|x: RV| rv_ok(x) ==> #[trigger] set_den(acc, x) == base_b(ctx, t, i, x)
 }
 pub open spec fn stage_b_num(ctx: SemTypeContext, t: SemType, acc: Set<Runtype>, i: int, values: Seq<NumberRepresentationOrFormat>, idx: int) -> bool {
-    forall|x: RV| visible(rv_tag(x)) ==> #[trigger] set_den(acc, x)
+    forall|x: RV| rv_ok(x) ==> #[trigger] set_den(acc, x)
         == (base_b(ctx, t, i, x) || (rv_tag(x) == SubTypeTag::Number && elem_upto(values, idx, rv_num(x))))
 }
 pub open spec fn stage_b_str(ctx: SemTypeContext, t: SemType, acc: Set<Runtype>, i: int, values: Seq<StringLitOrFormat>, idx: int) -> bool {
-    forall|x: RV| visible(rv_tag(x)) ==> #[trigger] set_den(acc, x)
+    forall|x: RV| rv_ok(x) ==> #[trigger] set_den(acc, x)
         == (base_b(ctx, t, i, x) || (rv_tag(x) == SubTypeTag::String && elem_upto(values, idx, rv_str(x))))
 }
 pub open spec fn stage_b_ta(ctx: SemTypeContext, t: SemType, acc: Set<Runtype>, i: int, values: Seq<TypedArrayKind>, idx: int) -> bool {
-    forall|x: RV| visible(rv_tag(x)) ==> #[trigger] set_den(acc, x)
+    forall|x: RV| rv_ok(x) ==> #[trigger] set_den(acc, x)
         == (base_b(ctx, t, i, x) || (rv_tag(x) == SubTypeTag::TypedArray && elem_upto(values, idx, rv_ta(x))))
 }
 pub open spec fn schema_pre(ctx: SemTypeContext, t: SemType) -> bool {
-    wf(t) && flat(t) && kinds_ok(ctx, t) && atoms_kind_pure()
+    wf(t) && flat(t) && kinds_ok(ctx, t) && atoms_kind_pure() && tables_ok(ctx)
 }
 
 pub open spec fn all_kinds() -> Seq<TypedArrayKind> {
